@@ -586,6 +586,32 @@ def _placeholder_version(ctx, rule):
                         stores.append(repo.stmt_of(c))
     versioned = not synth       # read_notebook no longer synthesises a default-version notebook
     ok = bool(stores) or versioned
+    # read_notebook substitutes a new notebook for a MISSING file and (on_empty) for an EMPTY file: a placeholder test on the file NAME alone misses the second kind
+    by_empty = any(k.arg == 'on_empty' and const_val(k.value) == 'minimal' for c in reads for k in c.keywords)
+    if ok and stores and by_empty:
+        g2 = CFG(fn)
+        from ..cfg import cond_guards
+        fname_vars = {st.targets[0].id for st in walk_no_nested(fn) if isinstance(st, ast.Assign) and isinstance(st.targets[0], ast.Name) and
+                      isinstance(st.value, ast.Attribute) and dotted(st.value.value) == 'args' and st.value.attr in ('base', 'local', 'remote')}
+        for st in stores:
+            tests = []
+            anc = repo.parent(st)
+            while anc is not None and anc is not fn:
+                if isinstance(anc, ast.If):
+                    tests.append(anc.test)
+                anc = repo.parent(anc)
+            names = {x.id for t in tests for x in ast.walk(t) if isinstance(x, ast.Name)}
+            # loop variables bound from tuples that pair file names with notebooks
+            loop = repo.enclosing(st, (ast.For,))
+            by_name = 'EXPLICIT_MISSING_FILE' in names or bool(names & fname_vars)
+            if loop is not None and isinstance(loop.target, ast.Tuple):
+                tnames = {e.id for e in loop.target.elts if isinstance(e, ast.Name)}
+                by_name = by_name or any(isinstance(c, ast.Compare) and any(isinstance(x, ast.Name) and x.id == 'EXPLICIT_MISSING_FILE' for x in ast.walk(c)) for t in tests for c in ast.walk(t))
+            if by_name:
+                ctx.inst(rule, APP + ':main_merge', repo.norm(st)[:80] + '  [placeholder recognised by file name]', False,
+                         'the alignment only covers inputs whose NAME is the null file, but read_notebook(on_empty=\'minimal\') also substitutes new_notebook() (minor 5) for an EMPTY '
+                         'base file -- what git passes for a file added on both branches: the merge of a 4.4 and a 4.5 side still takes the maximum over the placeholder', st)
+                ok = False
     ctx.inst(rule, APP + ':main_merge', '%d input(s) may be replaced by nbformat.v4.new_notebook(); format version aligned before merge_notebooks: %s' % (
         len(reads), 'yes' if ok else 'no'), ok,
         'the placeholder takes the format version of the real inputs' if ok else
@@ -988,3 +1014,502 @@ def c07_mirror_pairs(ctx, rule):
     only = {f for f in ctx.repo.functions if f.startswith('nbdime.prettyprint:') and ('merge' in f or 'render' in f)} | \
         {'nbdime.merging.strategies:resolve_strategy_inline_source', 'nbdime.merging.strategies:resolve_strategy_inline_recurse'}
     c05.mirror_statement_pairs(ctx, rule, only=only)
+
+
+# ------------------------------------------------------------------------------------------------ notebooks written to stdout stay the same notebook
+@extra('C08', 'R08.11', 'the error handler installed on stdout (where nbmerge writes the merged notebook when no --out is given) is backslashreplace: an unencodable character '
+       'becomes a \\\\uXXXX escape that JSON reads back as the same character; replace/ignore/xmlcharrefreplace would write a DIFFERENT notebook with exit status 0', 1)
+def stdout_handler_is_json_lossless(ctx, rule):
+    repo = ctx.repo
+    fid = 'nbdime.utils:_setup_std_stream_encoding'
+    fn = repo.func(fid)
+    sites = []
+    for c in calls_in(fn):
+        for k in c.keywords:
+            if k.arg == 'errors' and isinstance(const_val(k.value), str):
+                sites.append((c, const_val(k.value)))
+    if not sites:
+        raise AnalysisError('_setup_std_stream_encoding: no call with an errors= handler found')
+    for c, h in sites:
+        ok = h == 'backslashreplace'
+        ctx.inst(rule, fid, repo.norm(c)[:90], ok,
+                 'escapes are valid JSON string escapes for every character JSON text can hold unencoded' if ok else
+                 'errors=%r: an unencodable character (a lone surrogate under UTF-8, any non-Latin text under a legacy locale) is written as %s -- well-formed JSON, exit 0, '
+                 'but not the notebook the library merge returned' % (h, {'replace': '"?"', 'ignore': 'nothing', 'xmlcharrefreplace': '"&#NNNN;"', 'namereplace': '"\\\\N{...}"'}.get(h, 'something else')), c)
+
+
+# ------------------------------------------------------------------------------------------------ output alignment does not look at ignorable fields
+@extra('C14', 'R14.14', 'the output alignment predicate never compares fields of ignorable categories: for every output type, the schema\'s metadata / execution_count keys are in '
+       'its skip set before the catch-all comparison of remaining keys (else outputs differing only in ignored metadata stop aligning and show up as remove + add)', 4)
+def output_alignment_skips_ignorables(ctx, rule):
+    from ..schema import NbSchema
+    repo = ctx.repo
+    fid = 'nbdime.diffing.notebooks:compare_output_approximate'
+    fn = repo.func(fid)
+    otvar = None
+    hvar = None
+    for st in fn.body:
+        if isinstance(st, ast.Assign) and isinstance(st.targets[0], ast.Name):
+            if isinstance(st.value, ast.Subscript) and const_val(st.value.slice) == 'output_type':
+                otvar = st.targets[0].id
+            if isinstance(st.value, ast.Call) and dotted(st.value.func) == 'set' and st.value.args and isinstance(st.value.args[0], (ast.Tuple, ast.List, ast.Set)):
+                hvar = st.targets[0].id
+    if otvar is None or hvar is None:
+        raise AnalysisError('compare_output_approximate: output type local / handled-set local not found')
+
+    def test(e, ot):
+        if isinstance(e, ast.BoolOp):
+            vs = [test(v, ot) for v in e.values]
+            return all(vs) if isinstance(e.op, ast.And) else any(vs)
+        if isinstance(e, ast.Compare) and len(e.ops) == 1 and dotted(e.left) == otvar:
+            r = e.comparators[0]
+            vals = [const_val(x) for x in r.elts] if isinstance(r, (ast.Tuple, ast.List, ast.Set)) else [const_val(r)]
+            if isinstance(e.ops[0], (ast.Eq, ast.In)):
+                return ot in vals
+            if isinstance(e.ops[0], (ast.NotEq, ast.NotIn)):
+                return ot not in vals
+        return None
+
+    def run(stmts, ot, handled):
+        for st in stmts:
+            if isinstance(st, ast.Assign) and isinstance(st.targets[0], ast.Name) and st.targets[0].id == hvar and isinstance(st.value, ast.Call) and st.value.args:
+                handled.clear()
+                handled.update(const_val(e) for e in st.value.args[0].elts)
+            elif isinstance(st, ast.Expr) and isinstance(st.value, ast.Call) and isinstance(st.value.func, ast.Attribute) and dotted(st.value.func.value) == hvar and \
+                    st.value.func.attr in ('update', 'add') and st.value.args:
+                a = st.value.args[0]
+                handled.update(const_val(e) for e in a.elts) if isinstance(a, (ast.Tuple, ast.List, ast.Set)) else handled.add(const_val(a))
+            elif isinstance(st, ast.If):
+                t = test(st.test, ot)
+                if t is True:
+                    run(st.body, ot, handled)
+                elif t is False:
+                    run(st.orelse, ot, handled)
+                else:
+                    # unrelated test (early `return False` cut-offs): both arms, keys handled only if handled in both
+                    h1, h2 = set(handled), set(handled)
+                    run(st.body, ot, h1)
+                    run(st.orelse, ot, h2)
+                    handled.clear()
+                    handled.update(h1 & h2)
+    sch = NbSchema(5)
+    odefs = {k: v for k, v in sch.s.get('definitions', {}).items() if k in ('execute_result', 'display_data', 'stream', 'error')}
+    ignorable = {'metadata', 'execution_count'}
+    for ot, d in sorted(odefs.items()):
+        handled = set()
+        run(fn.body, ot, handled)
+        need = ignorable & set(d.get('properties', {}))
+        missing = sorted(need - handled)
+        ctx.inst(rule, fid, 'output type %s: ignorable keys %s, skipped %s' % (ot, sorted(need), sorted(handled & ignorable)), not missing,
+                 'not compared when aligning' if not missing else
+                 '%s of a %s output take part in the alignment decision: with that category ignored, two outputs differing only there no longer align -- the outputs list diff '
+                 'becomes remove + add of the whole output, which never passes the per-path ignore, so two notebooks differing only in ignored %s give a non-empty diff' % (
+                     missing, ot, missing[0]), fn)
+
+
+# ------------------------------------------------------------------------------------------------ C15: the `clear` action on a key absent from base
+@extra('C15', 'R15.8', 'the `clear` action builds the same kind of entry on both sides for a key that is ABSENT from base (both sides added it): an addition, never a replacement of a missing key', 1)
+def clear_on_absent_key_agrees(ctx, rule):
+    from ..tsscan import TsFile
+    repo = ctx.repo
+    TS = 'packages/nbdime/src/'
+    dec = TsFile(repo, TS + 'merge/decisions.ts')
+    body = dec.function_body('resolveAction')
+    toks = [t.text if t.kind != 'str' else repr(t.value) for t in body]
+    # tokens of the `clear` arm: from  a === 'clear'  to the next  a === '<other>'
+    try:
+        i0 = next(i for i in range(len(toks) - 2) if toks[i] == 'a' and toks[i + 1] == '===' and toks[i + 2] == "'clear'")
+    except StopIteration:
+        raise AnalysisError("resolveAction (TS): arm a === 'clear' not found")
+    i1 = next((i for i in range(i0 + 3, len(toks) - 2) if toks[i] == 'a' and toks[i + 1] == '==='), len(toks))
+    arm = toks[i0:i1]
+    ts_add = any(t in ('opAdd', 'opAddRange') for t in arm)
+    ts_rep = 'opReplace' in arm
+    ra = repo.func('nbdime.merging.decisions:resolve_action')
+    py_add = py_rep = False
+    for n in walk_no_nested(ra):
+        if isinstance(n, ast.If) and any(isinstance(c, ast.Constant) and c.value == 'clear' for c in ast.walk(n.test)):
+            for c in calls_in(n, nested=False):
+                if any(x is c for b in n.body for x in ast.walk(b)):
+                    if dotted(c.func) == 'op_add':
+                        py_add = True
+                    if dotted(c.func) == 'op_replace':
+                        py_rep = True
+    if not py_rep and not py_add:
+        raise AnalysisError('resolve_action (Python): the clear arm was not found')
+    ok = py_add == ts_add
+    ctx.inst(rule, TS + 'merge/decisions.ts:resolveAction', "clear arm: Python builds %s, TypeScript builds %s" % (
+        '/'.join(x for x, b in (('op_add (key absent)', py_add), ('op_replace', py_rep)) if b), '/'.join(x for x, b in (('opAdd', ts_add), ('opReplace', ts_rep)) if b)), ok,
+        'same entry kinds on both sides' if ok else
+        'for a key that neither base has (a markdown cell converted to code on both sides with different execution_count; any transient field both sides add) Python emits '
+        '`add key <cleared>` while the browser builds opReplace(key, makeClearedValue(base[key])) and validateObjectOp throws "Invalid replace key diff op: Missing key": '
+        'the server sends a decision list the web merge tool cannot apply', None)
+
+
+@extra('C15', 'R15.9', 'every path the strategy table clears names a field the schema REQUIRES in at least one alternative of its parent: the browser\'s `clear` arm replaces base[key] '
+       'and throws when the key is absent, so a cleared field must normally exist in base', 2)
+def cleared_fields_exist_in_base(ctx, rule):
+    from ..schema import NbSchema
+    from . import c03
+    table, transients = c03.strategy_table(ctx)
+    sch = NbSchema(5)
+    k = 0
+    for path, vals in sorted(table.items(), key=str):
+        if 'clear' not in vals:
+            continue
+        k += 1
+        parent, field = path.rsplit('/', 1)
+        alts = [a for a in sch.at(parent) if isinstance(a, dict)]
+        declared = any(field in a.get('properties', {}) for a in alts)
+        required = any(field in a.get('required', []) for a in alts)
+        ok = declared and required
+        ctx.inst(rule, 'nbdime.merging.notebooks:notebook_merge_strategies', 'clear on %s' % path, ok,
+                 'required by the schema in some alternative of %s' % parent if ok else
+                 '%s is %s: the field is usually absent from base, both sides adding it with different values is the normal conflict, and for that case Python emits `add` while the '
+                 'browser\'s clear arm builds a replace of a missing key and throws (R15.8)' % (path, 'optional everywhere' if declared else 'not declared by the schema (free-form)'), None)
+    if not k:
+        raise AnalysisError('no path with the clear strategy found in the strategy table')
+
+
+# ------------------------------------------------------------------------------------------------ TS: no `in` operator on JSON documents
+@extra('C15', 'R15.10', 'the TypeScript diff/patch/merge code never tests key presence in a JSON document with the `in` operator (it also sees Object.prototype: '
+       'a key named "constructor" or "toString" is "present" in every object); Python\'s `in` on a dict has no such keys', 4)
+def ts_no_in_operator_on_documents(ctx, rule):
+    from ..tsscan import TsFile
+    repo = ctx.repo
+    TS = 'packages/nbdime/src/'
+    files = ['diff/diffentries.ts', 'diff/util.ts', 'patch/generic.ts', 'patch/stringified.ts', 'patch/common.ts', 'merge/decisions.ts', 'common/util.ts']
+    for rel in files:
+        f = TsFile(repo, TS + rel)
+        toks = f.toks if hasattr(f, 'toks') else f.tokens
+        hits = []
+        depth_for = []
+        for i, t in enumerate(toks):
+            if t.kind == 'id' and t.text == 'in':
+                # `for (let k in obj)` / `for (const k in obj)`: iteration, not a presence test (own-property filtering is a separate matter)
+                j = i - 1
+                in_for = False
+                k = j
+                while k >= 0 and k > i - 6:
+                    if toks[k].kind == 'id' and toks[k].text == 'for':
+                        in_for = True
+                    k -= 1
+                if not in_for:
+                    hits.append(t)
+        ctx.inst(rule, TS + rel, '%d `in` presence test(s)' % len(hits), not hits,
+                 'none' if not hits else
+                 'line %d uses `<key> in <object>` as a presence test: for a key that names a property of Object.prototype (constructor, toString, valueOf, hasOwnProperty, ...) it is true '
+                 'for every object, so a Python-produced `add` of such a key is rejected ("Key already present") while Python applies it' % hits[0].line, None)
+
+
+# ------------------------------------------------------------------------------------------------ renderers: indexing possibly empty line lists
+@extra('C16', 'R16.17', 'in the renderers a constant index into the result of .splitlines() (directly or through a local) is taken only after the list was tested non-empty: '
+       '"".splitlines() is [] and an empty-string value is valid everywhere the schema allows a string', 1)
+def splitlines_index_guarded(ctx, rule):
+    from ..cfg import CFG, cond_guards
+    from ..util import local_defs, truth_under
+    repo = ctx.repo
+    mods = ['nbdime.prettyprint'] if ctx.tier == 'quick' else ['nbdime.prettyprint', 'nbdime.nbshowapp', 'nbdime.nbdiffapp', 'nbdime.diff_utils', 'nbdime.merging.strategies']
+    n = 0
+    for fid, fn in sorted(repo.functions.items()):
+        if not any(fid.startswith(m + ':') for m in mods):
+            continue
+        defs = None
+        g = None
+        for sub in walk_no_nested(fn):
+            if not (isinstance(sub, ast.Subscript) and isinstance(sub.ctx, ast.Load)):
+                continue
+            idx = sub.slice
+            if isinstance(idx, ast.UnaryOp) and isinstance(idx.op, ast.USub):
+                idx = idx.operand
+            if not (isinstance(idx, ast.Constant) and isinstance(idx.value, int)):
+                continue
+            v = sub.value
+            var = None
+            direct = isinstance(v, ast.Call) and isinstance(v.func, ast.Attribute) and v.func.attr == 'splitlines'
+            if isinstance(v, ast.Name):
+                defs = defs or local_defs(fn)
+                ds = defs.get(v.id, [])
+                if ds and all(isinstance(d, ast.Call) and isinstance(d.func, ast.Attribute) and d.func.attr == 'splitlines' for d, k, st in ds if k == 'assign') and \
+                        any(k == 'assign' for d, k, st in ds) and not any(k in ('mutate', 'aug') for d, k, st in ds):
+                    var = v.id
+            if not direct and var is None:
+                continue
+            n += 1
+            ok = False
+            if var is not None:
+                g = g or CFG(fn)
+                st = repo.stmt_of(sub)
+                isvar = lambda e, _v=var: isinstance(e, ast.Name) and e.id == _v
+                lenvar = lambda e, _v=var: isinstance(e, ast.Call) and dotted(e.func) == 'len' and e.args and isinstance(e.args[0], ast.Name) and e.args[0].id == _v
+                for t, pol in cond_guards(g, st):
+                    if truth_under(t, pol, isvar) is True:
+                        ok = True
+                    for c in ast.walk(t):
+                        if isinstance(c, ast.Compare) and lenvar(c.left) and pol is True and isinstance(c.ops[0], (ast.Gt, ast.GtE, ast.NotEq)):
+                            ok = True
+                        if isinstance(c, ast.Compare) and lenvar(c.left) and pol is False and isinstance(c.ops[0], (ast.Lt, ast.LtE, ast.Eq)):
+                            ok = True
+                # earlier conjunct of the same `and` / IfExp test
+                p = repo.parent(sub)
+                while p is not None and not isinstance(p, ast.stmt):
+                    if isinstance(p, ast.BoolOp) and isinstance(p.op, ast.And):
+                        for val in p.values:
+                            if any(x is sub for x in ast.walk(val)):
+                                break
+                            if isvar(val):
+                                ok = True
+                    if isinstance(p, ast.IfExp) and any(x is sub for x in ast.walk(p.body)) and truth_under(p.test, True, isvar) is True:
+                        ok = True
+                    p = repo.parent(p)
+            ctx.inst(rule, fid, repo.norm(sub), ok, 'only after the list was tested non-empty' if ok else
+                     'the text can be the empty string ("text/html": "", a metadata value "", an empty traceback line): .splitlines() is then [] and the constant index raises IndexError -- '
+                     'rendering aborts for a valid notebook', sub)
+    ctx.inst(rule, 'nbdime.prettyprint', '%d constant index(es) into splitlines() results' % n, True, 'each judged above', None, nontrivial=False)
+
+
+# ------------------------------------------------------------------------------------------------ renderers forward their config
+@extra('C16', 'R16.18', 'inside the renderer module a function that received a config passes it on to every helper that takes one: a helper called without it falls back to the '
+       'module-wide DefaultConfig (colour ON, stdout), whatever the caller asked for', 20)
+def renderers_forward_config(ctx, rule):
+    repo, cg = ctx.repo, ctx.cg
+    PP = 'nbdime.prettyprint'
+    n = 0
+    for fid, fn in sorted(repo.functions.items()):
+        if not fid.startswith(PP + ':'):
+            continue
+        ps = [a.arg for a in fn.args.args + fn.args.kwonlyargs]
+        has_cfg = 'config' in ps or (ps[:1] == ['self'] and '.' in fid.split(':')[1])
+        if 'config' not in ps:
+            continue
+        for c in calls_in(fn, nested=False):
+            for t in cg.resolve(c.func, fn):
+                if t[0] != 'func' or not t[1].startswith(PP + ':') or t[1] not in repo.functions:
+                    continue
+                callee = repo.functions[t[1]]
+                cps = [a.arg for a in callee.args.args]
+                if 'config' not in cps:
+                    continue
+                pos = cps.index('config')
+                if isinstance(repo.parent(callee), ast.ClassDef):
+                    continue
+                given = len(c.args) > pos or any(k.arg == 'config' for k in c.keywords) or any(k.arg is None for k in c.keywords) or any(isinstance(a, ast.Starred) for a in c.args)
+                n += 1
+                ctx.inst(rule, fid, repo.norm(c)[:90], given, 'config forwarded' if given else
+                         '%s takes a config (default: the module-wide DefaultConfig, colour on) but is called without the caller\'s: its output ignores use_color / the output stream / '
+                         'the ignore options -- ANSI codes appear with colour disabled' % t[1].split(':')[1], c, nontrivial=False)
+                break
+    if n < 20:
+        raise AnalysisError('fewer than 20 config-taking helper calls found in the renderer module')
+
+
+# ------------------------------------------------------------------------------------------------ web handlers: no class-level mutable state
+@extra('C20', 'R20.13', 'request handler classes keep no mutable container at class level that methods write through self (one object shared by every handler, request and '
+       'application in the process: parameters of one server would leak into the next)', 4)
+def handlers_no_shared_class_state(ctx, rule):
+    from . import c16
+    c16.shared_class_state(ctx, rule, ['nbdime.webapp'])
+
+
+# ------------------------------------------------------------------------------------------------ sub-command parsers are config backed too
+@extra('C19', 'R19.10', 'sub-command parsers read the configuration like the top-level parser: ConfigBackedParser does not hand argparse another parser_class for its sub-parsers, '
+       'and no add_subparsers/add_parser call on the command path passes a plain parser class', 1)
+def subparsers_config_backed(ctx, rule):
+    repo = ctx.repo
+    cls = repo.cls('nbdime.args:ConfigBackedParser')
+    ov = [f for f in cls.body if isinstance(f, ast.FunctionDef) and f.name in ('add_subparsers',)]
+    bad = None
+    for f in ov:
+        for n in ast.walk(f):
+            if isinstance(n, ast.Constant) and n.value == 'parser_class':
+                bad = f
+            if isinstance(n, ast.keyword) and n.arg == 'parser_class':
+                bad = f
+    ctx.inst(rule, 'nbdime.args:ConfigBackedParser', 'add_subparsers %s' % ('overridden with a parser_class' if bad else 'inherited' if not ov else 'overridden, parser_class untouched'), bad is None,
+             'argparse creates sub-parsers of type(self): they resolve the configuration too' if bad is None else
+             'sub-command parsers become plain parsers: argparse parses a sub-command into a fresh namespace built from the SUB-parser\'s defaults and copies it over the parent\'s, so for '
+             'every option a sub-command defines the built-in default beats every configuration section (git drivers and tools: `git-nbdiffdriver diff`, `git-nbmergedriver merge`)', bad or cls)
+    k = 0
+    for fid, fn in sorted(repo.functions.items()):
+        if not fid.startswith('nbdime.'):
+            continue
+        for c in calls_in(fn, nested=False):
+            if isinstance(c.func, ast.Attribute) and c.func.attr == 'add_subparsers':
+                k += 1
+                pc = [kw for kw in c.keywords if kw.arg == 'parser_class']
+                ok = not pc or (dotted(pc[0].value) or '').endswith('ConfigBackedParser')
+                ctx.inst(rule, fid, repo.norm(c)[:80], ok, 'sub-parsers are config backed' if ok else 'sub-parsers created with a plain parser class ignore the configuration', c)
+
+
+# ------------------------------------------------------------------------------------------------ the output file name is resolved against the server's cwd only
+@extra('C20', 'R20.14', 'file names in the server parameters are resolved in one place, against the server\'s `cwd` parameter (join(curdir, name)): nothing in the web application rewrites '
+       'params[\'outputfilename\'] or makes a parameter path absolute against the PROCESS directory (abspath/realpath/getcwd)', 2)
+def server_paths_resolved_against_cwd_param(ctx, rule):
+    repo = ctx.repo
+    n = 0
+    for fid, fn in sorted(repo.functions.items()):
+        if not fid.startswith('nbdime.webapp.nbdimeserver:'):
+            continue
+        n += 1
+        bad = []
+        for x in walk_no_nested(fn):
+            if isinstance(x, ast.Subscript) and isinstance(x.ctx, ast.Store) and const_val(x.slice) in ('outputfilename', 'cwd') and isinstance(x.value, (ast.Name, ast.Attribute)) and \
+                    (dotted(x.value) or '').split('.')[-1] in ('params', 'kwargs', 'settings'):
+                st_ = repo.stmt_of(x)
+                v_ = st_.value if isinstance(st_, ast.Assign) else None
+                joins_cwd = isinstance(v_, ast.Call) and dotted(v_.func) in ('os.path.join', 'join') and v_.args and \
+                    any(isinstance(c, ast.Constant) and c.value == 'cwd' for c in ast.walk(v_.args[0]))
+                if not joins_cwd:
+                    bad.append((x, 'rewrites params[%r]' % const_val(x.slice)))
+            if isinstance(x, ast.Call) and dotted(x.func) in ('os.path.abspath', 'os.path.realpath', 'os.getcwd', 'abspath', 'realpath', 'os.path.expanduser') and \
+                    any(isinstance(c, ast.Constant) and c.value in ('outputfilename',) for a in x.args for c in ast.walk(a)):
+                bad.append((x, 'makes the output file name absolute against the process directory'))
+        for x, what in bad:
+            ctx.inst(rule, fid, repo.norm(repo.stmt_of(x))[:90], False,
+                     '%s: the store handler joins the name onto the server\'s working directory (`cwd` parameter, -w); an absolute name makes that join a no-op, so with a working '
+                     'directory different from the process directory /api/store answers 200 but writes somewhere else' % what, x)
+    ctx.inst(rule, 'nbdime.webapp.nbdimeserver', '%d function(s) examined' % n, n >= 10, 'no rewriting of path parameters besides those reported', None, nontrivial=n > 0)
+    ctx.inst(rule, 'nbdime.webapp.nbdimeserver', 'path parameters are read-only after start-up', True, 'see above', None)
+
+
+# ------------------------------------------------------------------------------------------------ a replacement names a present key
+@extra('C11', 'R11.10', 'a `replace` entry built by the merge code for a variable key is backed by evidence that the key is present in the object it will be applied to '
+       '(membership guard, an earlier subscript lookup with that key, or a constant key asserted/required): a replacement of an absent key is not a well-formed diff', 3)
+def replace_names_present_key(ctx, rule):
+    from ..cfg import CFG, cond_guards
+    repo = ctx.repo
+    n = 0
+    for fid, fn in sorted(repo.functions.items()):
+        if not fid.startswith('nbdime.merging.'):
+            continue
+        g = None
+        for c in calls_in(fn, nested=False):
+            if not (dotted(c.func) == 'op_replace' and c.args):
+                continue
+            n += 1
+            k = c.args[0]
+            if isinstance(k, ast.Constant):
+                # constant key: a membership guard on that constant, or nothing to say (fixed schema field)
+                ctx.inst(rule, fid, repo.norm(c)[:80], True, 'constant key', c, nontrivial=False)
+                continue
+            ktxt = ast.unparse(k)
+            g = g or CFG(fn)
+            st = repo.stmt_of(c)
+            ev = None
+            for t, pol in cond_guards(g, st):
+                for cmp_ in ast.walk(t):
+                    if isinstance(cmp_, ast.Compare) and len(cmp_.ops) == 1 and ast.unparse(cmp_.left) == ktxt:
+                        if isinstance(cmp_.ops[0], ast.In) and pol is True:
+                            ev = 'under `%s`' % ast.unparse(cmp_)
+                        if isinstance(cmp_.ops[0], ast.NotIn) and pol is False:
+                            ev = 'after the `%s` case was sent elsewhere' % ast.unparse(cmp_)
+            if ev is None:
+                # subscript lookup X[K] (Load) in a statement that dominates the call, or an assert K == <const>
+                for x in walk_no_nested(fn):
+                    if isinstance(x, ast.Subscript) and isinstance(x.ctx, ast.Load) and ast.unparse(x.slice) == ktxt and isinstance(x.value, ast.Name) and \
+                            x.value.id in {a.arg for a in fn.args.args}:
+                        # (only a lookup in an object the function was GIVEN says something about the document; a local index built from the diffs does not)
+                        xs = repo.stmt_of(x)
+                        if xs is st or g.dominated_by(st, [xs]):
+                            ev = 'after the lookup `%s`' % ast.unparse(x)[:40]
+                            break
+                    if isinstance(x, ast.Assert) and isinstance(x.test, ast.Compare) and ast.unparse(x.test.left) == ktxt and isinstance(x.test.comparators[0], ast.Constant) and \
+                            g.dominated_by(st, [x]):
+                        ev = 'key asserted to be the constant %r' % x.test.comparators[0].value
+                        break
+            ctx.inst(rule, fid, repo.norm(c)[:80], ev is not None, ev or
+                     'nothing establishes that %s is a key of the object this diff is applied to: when both sides ADDED it (absent from base) the decision carries `replace <absent key>` '
+                     '-- Python\'s patch tolerates it, the format and the browser\'s validator do not' % ktxt, c)
+    if n < 4:
+        raise AnalysisError('fewer than 4 op_replace sites found in the merge package')
+
+
+# ------------------------------------------------------------------------------------------------ lifting a diff to an outer level
+@extra('C11', 'R11.11', 'when a diff is lifted to an outer level it is wrapped in patch entries from the INNERMOST remaining key outwards (the wrapping loop runs over the remaining '
+       'path reversed): the outermost patch must carry the first remaining key', 1)
+def lifted_diffs_nest_outermost_first(ctx, rule):
+    repo = ctx.repo
+    fid = 'nbdime.merging.strategies:adjust_patch_level'
+    fn = repo.func(fid)
+    verdict, node, why = None, fn, ''
+
+    def order_of(seq):
+        if isinstance(seq, ast.Call) and dotted(seq.func) == 'reversed':
+            return 'reversed'
+        if isinstance(seq, ast.Subscript) and isinstance(seq.slice, ast.Slice) and seq.slice.step is not None and const_val(seq.slice.step) == -1:
+            return 'reversed'
+        if isinstance(seq, (ast.Subscript, ast.Name, ast.Attribute)):
+            return 'forward'
+        return None
+    for n in walk_no_nested(fn):
+        if isinstance(n, ast.For) and any(dotted(c.func) == 'op_patch' for c in calls_in(n)):
+            verdict, node = order_of(n.iter), n
+        if isinstance(n, ast.Call) and (dotted(n.func) or '').split('.')[-1] == 'reduce' and len(n.args) >= 2 and \
+                any(isinstance(c, ast.Call) and dotted(c.func) == 'op_patch' for c in ast.walk(n.args[0])):
+            verdict, node = order_of(n.args[1]), n
+    if verdict is None:
+        ctx.inst(rule, fid, 'wrapping construct not recognised', True, 'not judged (neither a for loop nor a reduce over the remaining path)', fn, nontrivial=False)
+        return
+    ok = verdict == 'reversed'
+    ctx.inst(rule, fid, repo.norm(node)[:100], ok, 'innermost key first' if ok else
+             'the remaining path is walked front to back, so the FIRST remaining key ends up innermost: a decision two or more levels below the target (outputs/0/text/1) is lifted as '
+             'patch 1 -> patch "text" -> patch 0 -- keys at the wrong level, indices out of bounds in the decision\'s local/remote diffs', node)
+
+
+# ------------------------------------------------------------------------------------------------ rules of one property that are necessary conditions of another
+@extra('C02', 'R02.16', 'a nested list patch is keyed by the index IN A of the item its sub-diff was computed from (C11 R11.5): sequence keys are relative to the first document', 1)
+def c02_nested_patch_keys(ctx, rule):
+    from ..report import run_sub
+    from . import c11
+    run_sub(ctx, c11, {'R11.5': rule})
+
+
+@extra('C01', 'R01.16', 'a nested list patch is keyed by the index IN A of the item its sub-diff was computed from (C11 R11.5)', 1)
+def c01_nested_patch_keys(ctx, rule):
+    from ..report import run_sub
+    from . import c11
+    run_sub(ctx, c11, {'R11.5': rule})
+
+
+@extra('C03', 'R03.26', 'one line model (C07 R07.8): the string merger counts lines exactly as the differ that produced the line keys (else chunk boundaries fall outside the base: AssertionError)', 4)
+def c03_line_model(ctx, rule):
+    from ..report import run_sub
+    from . import c07
+    run_sub(ctx, c07, {'R07.8': rule})
+
+
+# ------------------------------------------------------------------------------------------------ no strategy deletes a required field
+@extra('C04', 'R04.9', 'no (path -> strategy) pair of the strategy table resolves a conflict by DELETING a field the schema requires: a strategy whose tryresolve arm yields the '
+       '`remove` action is not mapped to a required field', 1)
+def no_remove_of_required_field(ctx, rule):
+    from ..schema import NbSchema
+    from . import c03
+    repo = ctx.repo
+    tr = repo.func('nbdime.merging.decisions:MergeDecisionBuilder.tryresolve')
+    # strategies for which tryresolve produces action "remove"
+    removing = set()
+    for n in walk_no_nested(tr):
+        if isinstance(n, ast.If):
+            consts = [c.value for c in ast.walk(n.test) if isinstance(c, ast.Constant) and isinstance(c.value, str)]
+            sets_remove = any(isinstance(a, ast.Assign) and const_val(a.value) == 'remove' for b in n.body for a in ast.walk(b) if isinstance(a, ast.Assign)) or \
+                any(isinstance(c, ast.Call) and isinstance(c.func, ast.Attribute) and c.func.attr == 'remove' and dotted(c.func.value) == 'self' for b in n.body for c in ast.walk(b))
+            if sets_remove:
+                removing |= set(consts)
+    table, transients = c03.strategy_table(ctx)
+    sch = NbSchema(5)
+    k = 0
+    for path, vals in sorted(table.items(), key=str):
+        hit = sorted(v for v in vals if isinstance(v, str) and v in removing)
+        if not (vals & {'remove'}) and not hit:
+            continue
+        k += 1
+        parent, field = path.rsplit('/', 1)
+        alts = [a for a in sch.at(parent) if isinstance(a, dict)]
+        required = any(field in a.get('required', []) for a in alts)
+        ok = not (hit and required)
+        ctx.inst(rule, 'nbdime.merging.notebooks:notebook_merge_strategies', '%s -> %s; tryresolve arms yielding `remove`: %s' % (path, sorted(map(str, vals)), sorted(removing) or 'none'), ok,
+                 ('the strategy has no resolving arm (the conflict stays open and the base value is kept)' if not hit else 'the field is optional') if ok else
+                 'a conflict on %s is resolved by removing the field, which the schema REQUIRES (cell ids in 4.5): both sides give a cell a new id -> the merged cell has no id, the notebook '
+                 'fails validation, and no conflict is reported' % path, tr)
+    if not k:
+        ctx.inst(rule, 'nbdime.merging.notebooks:notebook_merge_strategies', 'no path is mapped to a removing strategy', True, 'nothing to check', None)
